@@ -675,3 +675,22 @@ def annotation_element_classes(ann: Optional[ast.AST]) -> Optional[Set[str]]:
             if head in ('List', 'list', 'Tuple', 'tuple', 'Sequence', 'Iterable', 'Set', 'set', 'Collection'):
                 return names(x.slice) - {'Union', 'Optional', 'List', 'Tuple'}
     return None
+
+
+def expanded(ctx, mod: str, qual: str, depth: int = 3, keep_extra=()) -> FuncInfo:
+    """The function as the rules read it: private helpers it calls (methods of its class, functions of the package) are expanded in place, so that an
+    extract-method refactoring reads like the original.  The owner-link primitives and the public methods of the model classes stay calls.  When nothing was
+    expanded the function of the index itself is returned (same node identities as the effect and path caches)."""
+    cache = ctx.__dict__.setdefault('_expanded', {})
+    key = (mod, qual, depth, tuple(sorted(keep_extra)))
+    if key not in cache:
+        from ..inline import inlined_info
+        idx = ctx.idx
+        raw = idx.func(mod, qual)
+        keep = {'_set_database', '_unset_database'} | set(keep_extra)
+        for ci in idx.classes.values():
+            if ci.module.startswith(('pydbml._classes', 'pydbml.database')):
+                keep |= {n for n in ci.methods if not n.startswith('_')}
+        inl = inlined_info(idx, raw, depth, keep=keep)
+        cache[key] = inl if getattr(inl.node, '_inlined_any', False) else raw
+    return cache[key]
